@@ -38,6 +38,26 @@ SPECS = [dict(rust="src/geom3/align3/rotations.rs", gen="Rotations", model="Mode
               type_map={"Matrix3<f64>": "(@M3 N)"},
               stmts={"to_wpr": "forall (N : EG.Num.Num.Num) m, @{G}.to_wpr N m = @{M}.to_wpr N (@EG.Num.Num.nlit N 1%Z (-15)%Z) m"})]
 
+# the Jacobian rows: which point the lever arm is taken from, the sign factor, the 2D row in full; RcParams2 / RcParams3 are read as
+# the model's state records (their current_rc() as rc2_current / rc3_current), a SurfacePoint as (point, normal), and the shared
+# 3D core point_plane_core as the model's plane_core on the surface normal and the state's rotation matrices
+SPECS.append(dict(rust="src/geom3/align3/jacobian.rs", gen="Jac3", model="Model.AlignParams", types="Model.Types Model.AlignParams", fns=[],
+                  extra_structs={"SurfacePoint3": [("point", "Point3"), ("normal", "UnitVec3")]},
+                  type_map={"RcParams3": "(@rc3 N)", "T3Storage": "((num * num * num) * (num * num * num))%type"},
+                  method_map={"RcParams3.current_rc": ["(rc3_current {0})", "Point3"],
+                              "SurfacePoint3.scalar_projection": ["(dot3 (SurfacePoint3_normal {0}) (sub3 {1} (SurfacePoint3_point {0})))", "f64"]},
+                  call_map={"point_plane_core": "(plane_core {0} (SurfacePoint3_normal {1}) {2} (rc3_rot {3}))"},
+                  stmts={"point_plane_jacobian": "forall (N : EG.Num.Num.Num) p (c : @SurfacePoint3 N) st, @{G}.point_plane_jacobian N p c st = "
+                                                 "@{M}.point_plane_jacobian N p (SurfacePoint3_point c) (SurfacePoint3_normal c) st",
+                         "point_plane_jacobian_rev": "forall (N : EG.Num.Num.Num) p (c : @SurfacePoint3 N) st, @{G}.point_plane_jacobian_rev N p c st = "
+                                                     "@{M}.point_plane_jacobian_rev N p (SurfacePoint3_point c) (SurfacePoint3_normal c) st"}))
+SPECS.append(dict(rust="src/geom2/align2/jacobian.rs", gen="Jac2", model="Model.AlignParams", types="Model.Types Model.AlignParams", fns=[],
+                  extra_structs={"SurfacePoint2": [("point", "Point2"), ("normal", "UnitVec2")]},
+                  type_map={"RcParams2": "(@rc2 N)", "T2Storage": "(num * num * num)%type"},
+                  method_map={"RcParams2.current_rc": ["(rc2_current {0})", "Point2"]}, call_map={"T2Storage::new": "(mk3 {0} {1} {2})"},
+                  stmts={"point_surface_jacobian": "forall (N : EG.Num.Num.Num) p (s : @SurfacePoint2 N) st, @{G}.point_surface_jacobian N p s st = "
+                                                   "@{M}.point_surface_jacobian N p (SurfacePoint2_normal s) st"}))
+
 
 def translate():
     return C.translator_tie(SPECS)
